@@ -519,6 +519,7 @@ cdef class CJokerHelper:
             if self.fixed_K_prior == 0:
                 self.Lambda[0] = (self.sigma_K0**2 / (1 - e**2)
                                   * (P / self.P0)**(-2/3.))
+                self.Lambda[0] = min(self.max_K**2, self.Lambda[0])
 
             # compute likelihood, but also generate a, Ainv
             _ll = self.likelihood_worker(1)  # the 1 is "True"
@@ -569,6 +570,7 @@ cdef class CJokerHelper:
         if self.fixed_K_prior == 0:
             self.Lambda[0] = (self.sigma_K0**2 / (1 - e**2)
                               * (P / self.P0)**(-2/3.))
+            self.Lambda[0] = min(self.max_K**2, self.Lambda[0])
 
         # compute likelihood, but also generate a, A, etc.
         ll = self.likelihood_worker(1)  # the 1 is "True"
